@@ -262,6 +262,11 @@ func (r SendErrReason) String() string {
 // Returns:
 //   - true if the error is temporary, false otherwise.
 func isTempError(err error) bool {
+	// like errorCode and enhancedStatusCode, look at the wrapped error if there is one
+	// (the RSET error of ResetWithSMTPClient is wrapped)
+	if rootErr := errors.Unwrap(err); rootErr != nil {
+		err = rootErr
+	}
 	return err.Error()[0] == '4'
 }
 
